@@ -767,6 +767,29 @@ theorem status_never_created (s0 : State) (a : Addr) (h0 : s0.status a = none) (
       rw [execAllSame _ _ _ hexec]
       exact anteAllNone t.msgs s0 s1 h0 hante
 
+/-! ### recovery rotation of a guarded account (`Custody.rotate`) -/
+
+/-- **a rotation casts no vote and changes no pending transfer**: the custodians' votes are what they were, and the pool
+of pending transfers arrives at the new address as it was (payer, recipient, amount, vote count, password state) - the
+approvals still missing are still missing -/
+theorem rotate_keeps_votes_and_transfers (s s' : State) (old new payer : Addr) (fee : Nat) (hne : old ≠ new)
+    (h : rotate s old new payer fee = some s') :
+    s'.votes = s.votes ∧ (∀ l, s.pool old = some l → s'.pool new = some l ∧ s'.pool old = none) ∧
+    (s.pool old = none → s'.pool = s.pool) := by
+  unfold rotate at h
+  split at h
+  · cases h
+  · cases h
+    refine ⟨rfl, ?_, ?_⟩
+    · intro l hl
+      simp only [hl, upd, if_true]
+      constructor
+      · trivial
+      · have : ¬ (old = new) := hne
+        simp [this]
+    · intro hn
+      simp only [hn]
+
 /-! ### Application wiring (table `Gen.App`) -/
 
 /-- the custody decorator is in the ante chain exactly once -/
